@@ -305,6 +305,8 @@ class Goebner:
             atom = ast.atom
             ret: Optional[list[Expr]]
             if atom.ast_type == ASTType.Comparison:
+                if len(atom.guards) != 1:
+                    return None  # negated comparison chain
                 c = (atom.term, atom.guards[0].comparison, atom.guards[0].term)
                 rel = self._to_sympy_comparison(c, sign == Sign.Negation)
                 if rel is None:
